@@ -116,7 +116,14 @@ def gen_creation(rng, ref, g_ok=True):
         if cur_kind == "d":
             existing_nonfresh = [k for k in (cur or {})] if isinstance(cur, dict) else []
             r = rng.random()
-            name = rng.choice([f for f in fresh if not (isinstance(cur, dict) and f in cur)] or ["zz%d" % i])
+            free = [f for f in fresh if not (isinstance(cur, dict) and f in cur)]
+            if not free:
+                # every usual name is taken at this node: a name that is really fresh (an earlier 'zz0' may exist by now)
+                j = i
+                while isinstance(cur, dict) and "zz%d" % j in cur:
+                    j += 1
+                free = ["zz%d" % j]
+            name = rng.choice(free)
             if r < 0.45:
                 steps.append(("N", name))
                 cur_kind, cur = "d", None
